@@ -135,7 +135,7 @@ def races(ms, cx, stage):
     for a, b in conflicts_in([m.accesses for m in ms]):
         sig, hazard, loop = classify(a, b, cx, ms[0].skipped)
         if sig not in out:
-            out[sig] = dict(stage=stage, hazard=hazard, loop_carried=loop is not None, first=a.describe(), second=b.describe())
+            out[sig] = dict(stage=stage, hazard=hazard, loop_carried=loop is not None, access_a=a.describe(), access_b=b.describe())
     return out
 
 
